@@ -37,7 +37,7 @@ PARAMS = {
 
 # fields whose mismatch means that the harness oracle and the specification
 # disagree with each other (machinery), not that libvna is wrong
-MACHINERY_FIELDS = {"neq", "leak", "leakobs", "related"}
+MACHINERY_FIELDS = {"neq", "leak", "leakobs", "related", "handles"}
 
 
 def mc(ctx, tier):
@@ -68,6 +68,8 @@ def _step_line(s):
             toks += [a, b]
         toks.append(len(s["pi"]))
         toks += list(s["pi"])
+        toks += [s.get("noise", 0), s.get("kit", "use"), s.get("mag", 0),
+                 s.get("alev", 0)]
     elif op == "add":
         toks = ["add", s["sid"], s["ep"], s["nomap"], s["sr"], s["sc"],
                 s["sdiag"], s["mr"], s["mc"], len(s["map"])]
